@@ -1,7 +1,333 @@
-"""C07 — not implemented yet (fail closed)."""
-from ..model import AnalysisError
+"""C07 Config-level extraction — structural obligations of the drivers."""
+
+from __future__ import annotations
+
+import ast
+import re as _re
+from typing import Dict, List, Optional, Set, Tuple
+
+from ..cfg import Node
+from ..core import Ctx, Report, snippet, where
+from ..fold import known
+from ..model import Func, own_nodes, src
+from ..pathsem import function_paths, resolve_local
+from .common import chain, deep_resolve, loop_body_paths, mentions, names_in, order_of
+from .keys import consumed, exported
+
 PROPERTY = "C07"
 LEVEL = "other"
-EXPLANATION = "not implemented"
-def run(ctx, rep, tier):
-    raise AnalysisError("rules for C07 are not implemented yet")
+EXPLANATION = (
+    "Decides structural obligations of the config-level drivers: IOS address-group members are converted from subnet "
+    "masks to wildcards before they become ACE addresses (on the same dict, from network_address and hostmask, only for "
+    "ios, from keys the exporter really writes); the name filter guards every append and is forwarded unchanged; "
+    "comment and blank lines are removed once, before all three views are built, and every driver parses before it "
+    "reads a view; 'in'/'out' bindings update 'input'/'output' and reach the Acl constructor; section patterns agree "
+    "with the headers the objects render; ACLs and groups are collected in configuration order. Does not decide "
+    "exactness of section splitting for arbitrary configurations (value-level)."
+)
+ASSUMPTIONS = ["ipaddress.IPv4Network.network_address / hostmask are the base address and the wildcard mask of a network"]
+
+
+def r07_1(ctx: Ctx, rep: Report) -> None:  # noqa: C901
+    rep.rule("R07.1")
+    f = ctx.func("functions._add_addgr_to_aces")
+    cfg = ctx.cfg(f)
+    rep.instance()
+    conv = ctx.func("functions._convert_ios_addr")
+
+    def is_data(n: Node) -> Optional[str]:
+        if n.kind == "stmt" and isinstance(n.ast, ast.Assign) and isinstance(n.ast.value, ast.Call) and isinstance(n.ast.value.func, ast.Attribute) and n.ast.value.func.attr == "data" and isinstance(n.ast.targets[0], ast.Name):
+            return n.ast.targets[0].id
+        return None
+
+    datas = [(n, is_data(n)) for n in cfg.live if is_data(n)]
+    ctors = []
+    for n in cfg.live:
+        if n.kind == "stmt" and n.ast is not None:
+            for x in ast.walk(n.ast):
+                if isinstance(x, ast.Call) and src(x.func) == "Address" and any(k.arg is None for k in x.keywords):
+                    ctors.append((n, x, src([k.value for k in x.keywords if k.arg is None][0])))
+    if not datas or not ctors:
+        rep.violation("functions._add_addgr_to_aces", "member -> Address", "group members are no longer turned into ACE addresses through data() -> Address(**d)", where(f))
+    else:
+        for cn, call, dname in ctors:
+            src_nodes = [n for n, d in datas if d == dname]
+            if not src_nodes:
+                rep.violation("functions._add_addgr_to_aces", snippet(call), f"Address is built from {dname}, which is not the exported member data", where(f, call))
+                continue
+
+            def is_conv(n: Node, dname=dname) -> bool:
+                if n.kind != "stmt" or n.ast is None:
+                    return False
+                for x in ast.walk(n.ast):
+                    if isinstance(x, ast.Call) and x.args and src(x.args[0]) == dname:
+                        for e in ctx.cg.all_edges(f):
+                            if e.site is x and e.target is conv:
+                                return True
+                return False
+
+            if cfg.all_paths_pass(src_nodes[0], cn, is_conv, labels_avoid=("exc",)):
+                rep.ok(f"functions._add_addgr_to_aces: {snippet(call)}", f"every path from {dname} = <member>.data() passes _convert_ios_addr({dname})", where=where(f, call))
+            else:
+                rep.violation("functions._add_addgr_to_aces", snippet(call), "a group member reaches Address(**d) without the IOS mask -> wildcard conversion: '10.0.0.0 255.255.255.0' is read as the wildcard 0.0.0.0/... (almost everything)", where(f, call), inp="IOS config: object-group network G / 10.0.0.0 255.255.255.0; ACE with object-group G")
+    # the converter itself
+    rep.instance()
+    d = conv.params[0]
+    paths = [p for p in function_paths(ctx.cfg(conv)) if not p.raises]
+    writes_line = []
+    only_ios = True
+    for p in paths:
+        stored = None
+        for node, lab in p.nodes:
+            if node.kind == "stmt" and isinstance(node.ast, ast.Assign) and isinstance(node.ast.targets[0], ast.Subscript) and src(node.ast.targets[0].value) == d:
+                if isinstance(node.ast.targets[0].slice, ast.Constant) and node.ast.targets[0].slice.value == "line":
+                    stored = deep_resolve(node.ast.value, p.env)
+        ios_path = any((isinstance(t, ast.Compare) and "platform" in src(t) and any(isinstance(x, ast.Constant) and x.value == "ios" for x in ast.walk(t)) and ((isinstance(t.ops[0], ast.NotEq) and not tr) or (isinstance(t.ops[0], ast.Eq) and tr))) for t, tr in p.atoms)
+        if stored is not None:
+            writes_line.append((stored, ios_path))
+            if not ios_path:
+                only_ios = False
+    if not writes_line:
+        rep.violation("functions._convert_ios_addr", "line rewrite", "the member line is not rewritten to a wildcard", where(conv))
+    else:
+        stored, _ = writes_line[0]
+        txt = src(stored)
+        ok_attrs = "network_address" in txt and "hostmask" in txt and txt.index("network_address") < txt.index("hostmask")
+        if ok_attrs and only_ios:
+            rep.ok("functions._convert_ios_addr", "rewrites line to '<network_address> <hostmask>' only when platform == 'ios'", where=where(conv))
+        elif not only_ios:
+            rep.violation("functions._convert_ios_addr", "platform guard", "the mask -> wildcard rewrite is applied on platforms other than ios (NX-OS members are already wildcards/prefixes)", where(conv))
+        else:
+            rep.violation("functions._convert_ios_addr", snippet(stored), "the wildcard must be '<network address> <host mask>' of the member network (netmask instead of hostmask keeps the subnet mask as a wildcard)", where(conv), inp="member 10.0.0.0 255.255.255.0")
+    # keys it reads exist in the exporter
+    rep.instance()
+    ex = exported(ctx, ctx.cls("AddressAg"))
+    reads = {n.slice.value for n in own_nodes(conv.node) if isinstance(n, ast.Subscript) and src(n.value) == d and isinstance(n.slice, ast.Constant) and isinstance(n.ctx, ast.Load)}
+    miss = sorted(reads - set(ex))
+    if miss:
+        rep.violation("functions._convert_ios_addr", f"reads keys {miss}", "the converter reads keys that AddressAg.data() does not export (KeyError)", where(conv))
+    else:
+        rep.ok("functions._convert_ios_addr: keys", f"{sorted(reads)} ⊆ keys of AddressAg.data()", where=where(conv))
+    # the member's own sequence number is cleared, and only AddressAg members are converted
+    rep.instance()
+    ok_members = any(isinstance(n, ast.Call) and src(n.func) == "isinstance" and "AddressAg" in src(n) for n in own_nodes(f.node))
+    appends = [n for n in own_nodes(f.node) if isinstance(n, ast.Call) and isinstance(n.func, ast.Attribute) and n.func.attr == "append" and "items" in src(n.func.value)]
+    if appends and ok_members:
+        rep.ok("functions._add_addgr_to_aces", f"members are appended to the ACE address items ({snippet(appends[0], 50)})", where=where(f))
+    else:
+        rep.violation("functions._add_addgr_to_aces", "member attachment", "converted members are not appended to the referencing ACE address", where(f))
+    # the group is selected by the referenced name
+    rep.instance()
+    sel_ok = False
+    for n in own_nodes(f.node):
+        if isinstance(n, ast.ListComp) and n.generators and n.generators[0].ifs:
+            c = n.generators[0].ifs[0]
+            if isinstance(c, ast.Compare) and isinstance(c.ops[0], ast.Eq) and src(c.left).endswith(".name") and "addgr_name" in src(c.comparators[0]) or (isinstance(c, ast.Compare) and isinstance(c.ops[0], ast.Eq) and src(c.left).endswith(".name") and "addrgroup" in src(c.comparators[0])):
+                sel_ok = True
+    if sel_ok:
+        rep.ok("functions._add_addgr_to_aces: group lookup", "the group is chosen by equality of its name with the referenced name", where=where(f))
+    else:
+        rep.violation("functions._add_addgr_to_aces", "group lookup", "the attached group is not selected by name equality with the ACE's reference", where(f))
+
+
+def r07_2(ctx: Ctx, rep: Report) -> None:
+    rep.rule("R07.2")
+    f = ctx.func("ConfigParser.acls")
+    cfg = ctx.cfg(f)
+    rets = [n for n in cfg.live if n.kind == "stmt" and isinstance(n.ast, ast.Return) and n.ast.value is not None]
+    appended = {src(x.func.value) for n in cfg.live if n.kind == "stmt" and n.ast is not None for x in ast.walk(n.ast) if isinstance(x, ast.Call) and isinstance(x.func, ast.Attribute) and x.func.attr == "append" and isinstance(x.func.value, ast.Name)}
+    acc = next((nm for nm in (names_in(rets[0].ast.value) if rets else set()) if nm in appended), "acls")
+    appends = [n for n in cfg.live if n.kind == "stmt" and n.ast is not None and any(isinstance(x, ast.Call) and isinstance(x.func, ast.Attribute) and x.func.attr == "append" and src(x.func.value) == acc for x in ast.walk(n.ast))]
+    rep.instance(len(appends))
+    rep.floor(1, "appends to the ACL list")
+    for a in appends:
+        deps = cfg.transitive_control_deps(a)
+        # the filter is `names is None or name in names`: either disjunct true lets the item through
+        none_t = [c for c, lab in deps if c.kind == "cond" and isinstance(c.ast, ast.Compare) and isinstance(c.ast.ops[0], ast.Is) and src(c.ast.left) == "names" and lab == "T"]
+        in_t = [c for c, lab in deps if c.kind == "cond" and isinstance(c.ast, ast.Compare) and isinstance(c.ast.ops[0], ast.In) and src(c.ast.comparators[0]) == "names" and lab == "T"]
+        # reachable only through one of the two held edges
+        from .common import reachable_without_edges
+
+        conds_none = [c for c in cfg.live if c.kind == "cond" and isinstance(c.ast, ast.Compare) and isinstance(c.ast.ops[0], (ast.Is, ast.IsNot)) and src(c.ast.left) == "names"]
+        conds_in = [c for c in cfg.live if c.kind == "cond" and isinstance(c.ast, ast.Compare) and isinstance(c.ast.ops[0], (ast.In, ast.NotIn)) and src(c.ast.comparators[0]) == "names" and src(c.ast.left) == "name"]
+        cut = {(c.id, "T" if isinstance(c.ast.ops[0], ast.Is) else "F") for c in conds_none} | {(c.id, "T" if isinstance(c.ast.ops[0], ast.In) else "F") for c in conds_in}
+        loop = [n for n in cfg.live if n.kind == "for"]
+        start = [s for lab, s in loop[0].succ if lab == "body"][0] if loop else cfg.entry
+        lets_all_through = False
+        for c in conds_none:
+            held = "T" if isinstance(c.ast.ops[0], ast.Is) else "F"
+            tgt = [s2 for lab, s2 in c.succ if lab == held]
+            if tgt and a in cfg.reachable(tgt[0], avoid=lambda n: n in conds_in, labels_avoid=("exc",)):
+                lets_all_through = True
+        if conds_none and conds_in and a not in reachable_without_edges(cfg, start, cut) and not lets_all_through:
+            rep.violation("ConfigParser.acls", snippet(a.ast), "without a name filter (names is None) no ACL is collected: the filter must let everything through when it is absent", where(f, a.ast), inp="acls(config) returns []")
+        elif conds_none and conds_in and a not in reachable_without_edges(cfg, start, cut):
+            rep.ok(f"ConfigParser.acls: {snippet(a.ast, 40)}", "reachable only when names is None or name in names", where=where(f, a.ast))
+        else:
+            rep.violation("ConfigParser.acls", snippet(a.ast), "an ACL is collected although it was not requested (the name filter does not guard the append)", where(f, a.ast), inp="acls(config, names=['A']) returns other lists too")
+    # the filter compares the parsed name (last regex group)
+    rep.instance()
+    d = ctx.func("functions.acls")
+    fw = False
+    for n in own_nodes(d.node):
+        if isinstance(n, ast.Call) and isinstance(n.func, ast.Attribute) and n.func.attr == "acls":
+            for k in n.keywords:
+                if k.arg == "names" and src(k.value) == "names":
+                    fw = True
+    nm = any(isinstance(n, ast.Assign) and isinstance(n.targets[0], ast.Name) and n.targets[0].id == "names" and src(n.value) == "kwargs.get('names')" for n in own_nodes(d.node))
+    if fw and nm:
+        rep.ok("functions.acls", "forwards names=kwargs.get('names') unchanged to the parser", where=where(d))
+    else:
+        rep.violation("functions.acls", "names", "the name filter given by the caller is not forwarded unchanged", where(d))
+
+
+def r07_3(ctx: Ctx, rep: Report) -> None:
+    rep.rule("R07.3")
+    f = ctx.func("ConfigParser.parse_config")
+    cfg = ctx.cfg(f)
+    rep.instance()
+    filt = None
+    for n in cfg.live:
+        if n.kind == "stmt" and isinstance(n.ast, ast.Assign) and isinstance(n.ast.value, ast.ListComp):
+            for g in n.ast.value.generators:
+                for c in g.ifs:
+                    if "startswith" in src(c) and "!" in src(c):
+                        filt = n
+    views = [n for n in cfg.live if n.kind == "stmt" and n.ast is not None and any(isinstance(x, ast.Call) and isinstance(x.func, ast.Attribute) and x.func.attr in ("_parse_lines", "_parse_dic", "_parse_mdic") for x in ast.walk(n.ast))]
+    if filt is None:
+        rep.violation("ConfigParser.parse_config", "comment filter", "comment ('!') and blank lines are not removed before the views are built", where(f), inp="config with '!' lines between an ACL header and its entries")
+    elif len(views) < 3:
+        rep.violation("ConfigParser.parse_config", f"{len(views)} view builders", "the three views (lines, dic, mdic) are no longer all built", where(f))
+    elif all(cfg.dominates(filt, v) for v in views):
+        tgt = src(filt.ast.targets[0])
+        args_ok = all(any(isinstance(x, ast.Call) and x.args and src(x.args[0]) == tgt for x in ast.walk(v.ast)) for v in views)
+        c = [c for g in filt.ast.value.generators for c in g.ifs][0]
+        keeps_nonempty = src(c).startswith("s and") or " and " in src(c)
+        if args_ok and keeps_nonempty:
+            rep.ok("ConfigParser.parse_config", f"`{snippet(filt.ast, 60)}` dominates all three view builders, which all read {tgt}", where=where(f, filt.ast))
+        else:
+            rep.violation("ConfigParser.parse_config", snippet(filt.ast), "a view is built from the unfiltered lines, or the filter no longer drops blank lines", where(f, filt.ast))
+    else:
+        rep.violation("ConfigParser.parse_config", "filter order", "a view is built before comments/blank lines were removed", where(f))
+    for q in ("functions.acls", "functions.aces", "functions.addrgroups"):
+        d = ctx.func(q)
+        dcfg = ctx.cfg(d)
+        rep.instance()
+        parse = [n for n in dcfg.live if n.kind == "stmt" and n.ast is not None and any(isinstance(x, ast.Call) and isinstance(x.func, ast.Attribute) and x.func.attr == "parse_config" for x in ast.walk(n.ast))]
+        reads = [n for n in dcfg.live if n.ast is not None and n.kind in ("stmt", "for", "cond") and any(isinstance(x, ast.Attribute) and x.attr in ("lines", "dic", "mdic", "dic_text", "mdic_text", "acls", "addgrs") and src(x.value) == "parser" for x in ast.walk(n.ast if n.kind != "for" else n.ast.iter))]
+        if parse and all(dcfg.dominates(parse[0], r) for r in reads) and reads:
+            rep.ok(q, "parser.parse_config() dominates every read of a parsed view", where=where(d))
+        else:
+            rep.violation(q, "parse before read", "a parsed view is read before parse_config() ran (or is never parsed): the driver returns nothing", where(d))
+
+
+def r07_4(ctx: Ctx, rep: Report) -> None:
+    rep.rule("R07.4")
+    f = ctx.func("ConfigParser._acls_on_interfaces")
+    cfg = ctx.cfg(f)
+    pairs: Dict[str, Set[str]] = {}
+    for n in cfg.live:
+        if n.kind != "stmt" or n.ast is None:
+            continue
+        keys = set()
+        for x in ast.walk(n.ast):
+            if isinstance(x, ast.Call) and isinstance(x.func, ast.Attribute) and x.func.attr == "update" and x.args:
+                a = x.args[0]
+                if isinstance(a, ast.Call) and src(a.func) == "dict":
+                    keys |= {k.arg for k in a.keywords if k.arg}
+                elif isinstance(a, ast.Dict):
+                    keys |= {k.value for k in a.keys if isinstance(k, ast.Constant)}
+            if isinstance(x, ast.Assign) and isinstance(x.targets[0], ast.Subscript) and isinstance(x.targets[0].slice, ast.Constant):
+                keys.add(x.targets[0].slice.value)
+        keys &= {"input", "output"}
+        if not keys:
+            continue
+        for c, lab in cfg.transitive_control_deps(n):
+            if c.kind == "cond" and isinstance(c.ast, ast.Compare) and isinstance(c.ast.ops[0], ast.Eq) and isinstance(c.ast.comparators[0], ast.Constant) and lab == "T" and "direction" in src(c.ast.left):
+                pairs.setdefault(c.ast.comparators[0].value, set()).update(keys)
+    rep.instance()
+    if pairs == {"in": {"input"}, "out": {"output"}}:
+        rep.ok("ConfigParser._acls_on_interfaces", "'in' updates 'input', 'out' updates 'output' (a bijection)", where=where(f))
+    else:
+        rep.violation("ConfigParser._acls_on_interfaces", f"direction -> key {dict((k, sorted(v)) for k, v in pairs.items())}", "inbound and outbound bindings are crossed or merged", where(f), inp="interface X / ip access-group A in  ->  reported as output")
+    # the regex: (name) (direction), name is the first group
+    rep.instance()
+    pats = []
+    for n in own_nodes(f.node):
+        if isinstance(n, ast.Call) and src(n.func) in ("re.findall", "re.search", "re.match") and n.args:
+            v = ctx.folder.fold(n.args[0], f.module)
+            if isinstance(v, str):
+                pats.append(v)
+    good = any(_re.findall(p, "ip access-group NAME in") == [("NAME", "in")] for p in pats)
+    for_t = [n for n in own_nodes(f.node) if isinstance(n, ast.For) and isinstance(n.target, ast.Tuple) and len(n.target.elts) == 2]
+    order_ok = any([src(e) for e in lp.target.elts] == ["acl_name", "direction"] for lp in for_t)
+    if good and order_ok:
+        rep.ok("ConfigParser._acls_on_interfaces: pattern", f"{pats[0]!r} yields (name, direction)", where=where(f))
+    else:
+        rep.violation("ConfigParser._acls_on_interfaces", f"patterns {pats}", "name and direction are not read as (first group, second group) of 'ip access-group NAME in|out'", where(f))
+    # binding joined by name equality; input/output reach Acl(**d)
+    g = ctx.func("ConfigParser._add_acl_interfaces")
+    rep.instance()
+    join = any(isinstance(n, ast.Compare) and isinstance(n.ops[0], ast.Eq) and "['name']" in src(n.left) and "['name']" in src(n.comparators[0]) for n in own_nodes(g.node))
+    app = {}
+    for n in own_nodes(g.node):
+        if isinstance(n, ast.Call) and isinstance(n.func, ast.Attribute) and n.func.attr == "append" and isinstance(n.func.value, ast.Subscript) and n.args and isinstance(n.args[0], ast.Subscript):
+            k1 = n.func.value.slice.value if isinstance(n.func.value.slice, ast.Constant) else None
+            k2 = n.args[0].slice.value if isinstance(n.args[0].slice, ast.Constant) else None
+            app[k1] = k2
+    if join and app == {"input": "input", "output": "output"}:
+        rep.ok("ConfigParser._add_acl_interfaces", "bindings are joined by ACL name; input -> input, output -> output", where=where(g))
+    else:
+        rep.violation("ConfigParser._add_acl_interfaces", f"join={join} appends={app}", "interface bindings are not attached to the ACL of the same name under the same direction", where(g))
+    rep.instance()
+    co = consumed(ctx, ctx.cls("Acl"))
+    pa = ctx.func("ConfigParser.acls")
+    keys: Set[str] = set()
+    for n in own_nodes(pa.node):
+        if isinstance(n, ast.Call) and src(n.func) == "dict":
+            keys |= {k.arg for k in n.keywords if k.arg}
+    miss = sorted(k for k in keys if k not in co)
+    if {"input", "output", "line", "name", "platform"} <= keys and not miss:
+        rep.ok("ConfigParser.acls -> Acl(**d)", f"keys {sorted(keys)} are all read by the Acl constructor", where=where(pa))
+    else:
+        rep.violation("ConfigParser.acls", f"keys {sorted(keys)}", f"the parsed ACL dict does not agree with the Acl constructor (unread: {miss})", where(pa))
+
+
+def r07_6(ctx: Ctx, rep: Report) -> None:
+    """Configuration order: the drivers build their result lists in the order of the parsed sections."""
+    rep.rule("R07.6")
+    for q, retname in (("ConfigParser.acls", None), ("ConfigParser.addgrs", None)):
+        f = ctx.func(q)
+        cfg = ctx.cfg(f)
+        rep.instance()
+        rets = [n for n in cfg.live if n.kind == "stmt" and isinstance(n.ast, ast.Return) and n.ast.value is not None]
+        if not rets:
+            continue
+        state, why = order_of(ctx, f, rets[0].ast.value)
+        if state.startswith("ordered:self.dic_text") or state.startswith("ordered:self.dic"):
+            rep.ok(q, f"result follows the section dictionary order ({why})", where=where(f))
+        else:
+            rep.violation(q, f"return {snippet(rets[0].ast.value)}", f"the result is not in configuration order: {state} ({why})", where(f))
+    for q in ("functions.acls", "functions.addrgroups"):
+        f = ctx.func(q)
+        rep.instance()
+        rets = [n.value for n in own_nodes(f.node) if isinstance(n, ast.Return) and n.value is not None]
+        state, why = order_of(ctx, f, rets[0]) if rets else ("unknown", "")
+        if state.startswith("ordered"):
+            rep.ok(q, f"objects in the order of the parsed dicts ({why})", where=where(f))
+        else:
+            rep.violation(q, f"return {snippet(rets[0]) if rets else ''}", f"objects are not returned in configuration order: {state} ({why})", where(f))
+
+
+def run(ctx: Ctx, rep: Report, tier: str) -> None:
+    r07_1(ctx, rep)
+    r07_2(ctx, rep)
+    r07_3(ctx, rep)
+    r07_4(ctx, rep)
+    r07_6(ctx, rep)
+    # R07.5 section keys agree with object headers
+    from .c06 import r06_1
+
+    sub = Report("C07")
+    r06_1(ctx, sub)
+    rep.absorb(sub, "R07.5")
